@@ -103,7 +103,10 @@ class Battle:
         self.ids = synth.TABLE_IDS[dialect]; self.out = []
         self.expect = dict(deaths=[], damage={}, achievements={}, planes={}, roster={}, ribbons={}, calls=0)
 
-    def pkt(self, cls, payload): self.out.append(synth.frame(self.ids[cls], 0, payload))
+    def pkt(self, cls, payload):
+        # (time stamps mostly rise and now and then step back - the stream order is the order, whatever the clocks say)
+        k = len(self.out); t = struct.unpack('<I', struct.pack('<f', k * 0.5 - (4.0 if k % 5 == 3 else 0.0)))[0]
+        self.out.append(synth.frame(self.ids[cls], t, payload))
     def base_player(self, eid):
         val = b''.join(gen_types.wire_of(t, default_value(t, self.rng)) for n, t in self.md.ent['Avatar']['base'])
         if self.dialect == 'wot': val = b''
@@ -183,6 +186,9 @@ def build_wows(v, rng, join=True, battle_end=True, map_name='spaces/16_OC_bees_t
     consts = importlib.import_module('replay_unpack.clients.wows.versions.%s.constants' % v)
     A, BL, V1, V2 = 900, 10, 500, 501
     # both orders of the two player-creation packets are legal (the player handles "entity already there" in either branch)
+    if 'Version' in b.ids:
+        other = b'12,5,0,1' if new else b'12,6,0,1'              # the in-stream version record is logged, never acted on
+        b.pkt('Version', struct.pack('<i', len(other)) + other)
     cell_first = rng.random() < 0.4
     if not cell_first:
         b.base_player(A)
@@ -207,6 +213,13 @@ def build_wows(v, rng, join=True, battle_end=True, map_name='spaces/16_OC_bees_t
         payload = bits + gen_types.wire_of(strip_user(rft)[1], rec)
         if len(payload) < 256:
             b.pkt('NestedProperty', struct.pack('<IbB', A, 0, len(payload)) + bytes(3) + payload); b.expect['avatar_ribbons'] = {3: 4}
+            # ... and TWO more records inserted behind it by one slice packet (bounds 1:1 of a one-element list: 1 bit each)
+            recs = [{n: ((k_ if n == 'ribbonId' else 1) if strip_user(x)[0] in 'ui' else default_value(x, rng)) for n, x in rt[1]} for k_ in (8, 9)]
+            bits2 = synth.pack_bits([(1, 1), (anames.index('privateVehicleState'), synth.bits_required(len(anames))), (1, 1), (pf.index('ribbons'), synth.bits_required(len(pf))),
+                                     (0, 1), (1, synth.bits_required(2)), (1, synth.bits_required(2))])
+            payload2 = bits2 + b''.join(gen_types.wire_of(strip_user(rft)[1], r_) for r_ in recs)
+            if len(payload2) < 256:
+                b.pkt('NestedProperty', struct.pack('<IbB', A, 1, len(payload2)) + bytes(3) + payload2); b.expect['avatar_ribbons'] = {3: 4, 8: 1, 9: 1}
     if cell_first:
         b.base_player(A)
         b.map(777, map_name)
